@@ -78,3 +78,13 @@ Definition ptry_bind {A} (m : PM A) (hs : errkind -> PM pctl) (he : option (PM p
            | PSockErr e s' => hs e s'
            | PEmpty s' => match he with Some h => h s' | None => PEmpty s' end
            end.
+
+(* ---- _select: descriptor lists as (has the socket, has the outbox) -------------------------------------------------- *)
+Definition fdset := (bool * bool)%type.
+Definition fd_add_sock (f : fdset) : fdset := (true, snd f).
+Definition fd_add_outbox (f : fdset) : fdset := (fst f, true).
+Definition fd_inter (a b : fdset) : fdset := (fst a && fst b, snd a && snd b).      (* select() reports only what was asked for *)
+Definition truthy (v : option bool) : bool := match v with Some true => true | _ => false end.
+(* if X in r and not self.m(): return   ...   (m is called only when X was reported) *)
+Definition pif_call (b : bool) (call : PM (option bool)) (rest : PM pctl) : PM pctl :=
+  if b then pbind call (fun v => if negb (truthy v) then preturn None else rest) else rest.
